@@ -281,3 +281,72 @@ func VH_C19_Canary() {
 	c := vChoose("fieldtype", 3)
 	vAssert(c != 1, "canary: must fail")
 }
+
+// ---------- field types x capture forms ----------
+
+type vhParseVal struct{ S string }
+
+func (vhParseVal) Parse(lex *lexer.PeekingLexer) error { return nil }
+
+type vhParsePtr struct{ S string }
+
+func (*vhParsePtr) Parse(lex *lexer.PeekingLexer) error { return nil }
+
+type vhParseIface interface {
+	Parse(lex *lexer.PeekingLexer) error
+}
+
+type vhCaptureT struct{ S string }
+
+func (c *vhCaptureT) Capture(values []string) error { return nil }
+
+type vhTextT struct{ S string }
+
+func (c *vhTextT) UnmarshalText(b []byte) error { return nil }
+
+type vhRecSlice []vhRecSlice
+type vhRecPtr *vhRecPtr
+type vhNamedString string
+type vhSelfRef struct {
+	Next *vhSelfRef `@@?`
+	V    string     `@A`
+}
+
+var vhBuildFieldTypes = []reflect.Type{
+	reflect.TypeOf(""), reflect.TypeOf(&vhShapeSub{}), reflect.TypeOf([]string{}), reflect.TypeOf(true),
+	reflect.TypeOf(map[string]string{}), reflect.TypeOf((*interface{})(nil)).Elem(),
+	reflect.TypeOf(0), reflect.TypeOf([]*vhShapeSub{}), reflect.TypeOf(vhShapeSub{}),
+	reflect.TypeOf(lexer.Token{}), reflect.TypeOf(struct{}{}),
+	reflect.TypeOf((chan int)(nil)), reflect.TypeOf((func())(nil)), reflect.TypeOf([2]string{}),
+	reflect.TypeOf(vhParseVal{}), reflect.TypeOf(&vhParseVal{}), reflect.TypeOf(vhParsePtr{}), reflect.TypeOf(&vhParsePtr{}),
+	reflect.TypeOf((*vhParseIface)(nil)).Elem(), reflect.TypeOf([]vhParseVal{}),
+	reflect.TypeOf(vhCaptureT{}), reflect.TypeOf(&vhCaptureT{}), reflect.TypeOf([]vhCaptureT{}),
+	reflect.TypeOf(vhTextT{}), reflect.TypeOf(&vhTextT{}),
+	reflect.TypeOf(vhRecSlice{}), reflect.TypeOf(vhRecPtr(nil)),
+	reflect.TypeOf(vhNamedString("")), reflect.TypeOf((*string)(nil)), reflect.TypeOf((**vhShapeSub)(nil)),
+	reflect.TypeOf([]lexer.Token{}), reflect.TypeOf(1.5), reflect.TypeOf(uint8(0)), reflect.TypeOf([]int{}),
+	reflect.TypeOf(&vhSelfRef{}), reflect.TypeOf([][]string{}), reflect.TypeOf(&[]string{}),
+	reflect.TypeOf((*error)(nil)).Elem(), reflect.TypeOf(complex(1, 1)), reflect.TypeOf(uintptr(0)),
+}
+
+var vhBuildTags = []string{`@@`, `@A`, `@@*`, `@A*`, `( @@ )?`, `@( A B )`, `"x" @@`, `@"x"`, `(?= @@ ) A`, `~@@`, `[ @@ ]`, `{ @@ }`}
+
+// VH_C19_FieldTypes: one field of every kind of type with each capture form:
+// Build (parseType + validate) returns a node or an error within a step bound.
+func VH_C19_FieldTypes() {
+	ft := vhBuildFieldTypes[vChoose("fieldtype", len(vhBuildFieldTypes))]
+	tag := vhBuildTags[vChoose("tag", len(vhBuildTags))]
+	rt := reflect.StructOf([]reflect.StructField{{Name: "F0", Type: ft, Tag: reflect.StructTag(tag)}})
+	def := &vhStreamDef{}
+	ctx := newGeneratorContext(def)
+	vStepLimit(3000000, "C19: Build did not terminate for this field type")
+	node, err := ctx.parseType(rt)
+	vAssert((node != nil) != (err != nil), "C19: parseType must return a node or an error, not both or neither")
+	if err == nil {
+		_ = validate(node)
+		vReach("built")
+	} else {
+		vReach("rejected")
+	}
+	vStepLimit(0, "")
+}
